@@ -719,7 +719,7 @@ type c19Base struct {
 var c19Bases = []c19Base{
 	{"get", c19Req, []c19F{{Name: ":method", Value: "GET"}, {Name: ":path", Value: "/p"}, {Name: ":authority", Value: "h"}}, 3, 4},
 	{"get_scheme", c19Req, []c19F{{Name: ":method", Value: "GET"}, {Name: ":scheme", Value: "https"}, {Name: ":authority", Value: "h"}, {Name: ":path", Value: "/p"}}, 2, 3},
-	{"connect", c19Req, []c19F{{Name: ":method", Value: "CONNECT"}, {Name: ":authority", Value: "h"}}, 3, 4},
+	{"connect", c19Req, []c19F{{Name: ":method", Value: "CONNECT"}, {Name: ":authority", Value: "h"}}, 3, 3},
 	{"ext_connect", c19Req, []c19F{{Name: ":method", Value: "CONNECT"}, {Name: ":protocol", Value: "wt"}, {Name: ":scheme", Value: "https"}, {Name: ":path", Value: "/p"}, {Name: ":authority", Value: "h"}}, 2, 3},
 	{"raw", c19Req, nil, 3, 4},
 	{"empty_path_first", c19Req, []c19F{{Name: ":path", Value: ""}, {Name: ":method", Value: "GET"}, {Name: ":authority", Value: "h"}}, 3, 3},
@@ -727,10 +727,10 @@ var c19Bases = []c19Base{
 	{"get_cl", c19Req, []c19F{{Name: ":method", Value: "GET"}, {Name: ":path", Value: "/p"}, {Name: ":authority", Value: "h"}, {Name: "content-length", Value: "5"}}, 2, 3},
 	{"status", c19Resp, []c19F{{Name: ":status", Value: "200"}}, 3, 4},
 	{"raw", c19Resp, nil, 3, 4},
-	{"empty_status", c19Resp, []c19F{{Name: ":status", Value: ""}}, 3, 4},
-	{"status_regular", c19Resp, []c19F{{Name: ":status", Value: "200"}, {Name: "a", Value: "b"}}, 3, 4},
+	{"empty_status", c19Resp, []c19F{{Name: ":status", Value: ""}}, 3, 3},
+	{"status_regular", c19Resp, []c19F{{Name: ":status", Value: "200"}, {Name: "a", Value: "b"}}, 3, 3},
 	{"raw", c19Trl, nil, 3, 4},
-	{"one", c19Trl, []c19F{{Name: "a", Value: "b"}}, 3, 4},
+	{"one", c19Trl, []c19F{{Name: "a", Value: "b"}}, 3, 3},
 }
 
 func c19Combos(n, k int) [][]int {
@@ -1012,7 +1012,7 @@ func TestVerifC19Random(t *testing.T) {
 	l := evlog.Open("C19")
 	defer l.Close()
 	st := &c19Stats{n: map[string]int64{}}
-	nRand := l.Pick(600000, 40000000)
+	nRand := l.Pick(2000000, 50000000)
 	const batch = 2000
 	for bi := 0; bi*batch < nRand; bi++ {
 		if !l.Mine(bi) {
